@@ -59,43 +59,16 @@ pub(crate) fn composite_frame(
         return;
     }
 
-    // clear rectangle occupied by previous frame
+    // clear rectangle occupied by previous frame (the canvas is always RGBA, whatever the current frame is)
     if let Some(clear_color) = clear_color {
-        match (frame_is_full_size, frame_has_alpha) {
-            (true, true) => {
-                for pixel in canvas.chunks_exact_mut(4) {
-                    pixel.copy_from_slice(&clear_color);
-                }
-            }
-            (true, false) => {
-                for pixel in canvas.chunks_exact_mut(3) {
-                    pixel.copy_from_slice(&clear_color[..3]);
-                }
-            }
-            (false, true) => {
-                for y in 0..previous_frame_height as usize {
-                    for x in 0..previous_frame_width as usize {
-                        let canvas_index = ((x + previous_frame_offset_x as usize)
-                            + (y + previous_frame_offset_y as usize) * canvas_width as usize)
-                            * 4;
+        for y in 0..previous_frame_height as usize {
+            for x in 0..previous_frame_width as usize {
+                let canvas_index = ((x + previous_frame_offset_x as usize)
+                    + (y + previous_frame_offset_y as usize) * canvas_width as usize)
+                    * 4;
 
-                        let output = &mut canvas[canvas_index..][..4];
-                        output.copy_from_slice(&clear_color);
-                    }
-                }
-            }
-            (false, false) => {
-                for y in 0..previous_frame_height as usize {
-                    for x in 0..previous_frame_width as usize {
-                        // let frame_index = (x + y * frame_width as usize) * 4;
-                        let canvas_index = ((x + previous_frame_offset_x as usize)
-                            + (y + previous_frame_offset_y as usize) * canvas_width as usize)
-                            * 3;
-
-                        let output = &mut canvas[canvas_index..][..3];
-                        output.copy_from_slice(&clear_color[..3]);
-                    }
-                }
+                let output = &mut canvas[canvas_index..][..4];
+                output.copy_from_slice(&clear_color);
             }
         }
     }
